@@ -12,6 +12,9 @@
 #include <xercesc/util/SecurityManager.hpp>
 #include <xercesc/util/XMLUni.hpp>
 #include <xercesc/framework/MemBufInputSource.hpp>
+#include <xercesc/util/XMLNetAccessor.hpp>
+#include <xercesc/util/BinMemInputStream.hpp>
+#include <xercesc/util/XMLURL.hpp>
 #include <xercesc/framework/XMLErrorCodes.hpp>
 #include <xercesc/framework/XMLValidityCodes.hpp>
 #include <xercesc/sax/SAXParseException.hpp>
@@ -94,6 +97,20 @@ static void walk(const std::string& dir) {
     for (auto& s : subs) walk(s);
 }
 
+static std::map<std::string, std::string> gServed;        // URL text -> content the in-memory net accessor serves
+static void drain(bool record);
+
+// in-memory net accessor: records every URL the library asks it for (event N(url)); serves the URLs registered
+// with `serve <url> <file>`, anything else fails like a refused connection.  Nothing ever touches the network.
+class RecAccessor : public XMLNetAccessor {
+public:
+    XMLCh* id;
+    RecAccessor() { id = XMLString::transcode("C19 recording accessor"); }
+    ~RecAccessor() { XMLString::release(&id); }
+    const XMLCh* getId() const override { return id; }
+    BinInputStream* makeNew(const XMLURL& url, const XMLNetHTTPInfo* = 0) override;
+};
+
 // read pending inotify events; append O(path) for every file opened (directories themselves are skipped)
 static void drain(bool record) {
     char buf[16384] __attribute__((aligned(8)));
@@ -112,10 +129,21 @@ static void drain(bool record) {
     }
 }
 
+static std::string plain(const XMLCh* s);
+BinInputStream* RecAccessor::makeNew(const XMLURL& url, const XMLNetHTTPInfo*) {
+    drain(true);
+    gTrace.push_back("N(" + plain(url.getURLText()) + ")");
+    auto it = gServed.find(narrow(url.getURLText()));
+    if (it == gServed.end())
+        ThrowXML1(NetAccessorException, XMLExcepts::NetAcc_ConnSocket, url.getURLText());
+    return new BinMemInputStream((const XMLByte*)it->second.data(), it->second.size(), BinMemInputStream::BufOpt_Copy);
+}
+
 static std::string setRoot(const std::string& root) {
     if (gIno >= 0) close(gIno);
     gWatch.clear();
     gCanary.clear();
+    gServed.clear();
     gRoot = root;
     gIno = inotify_init1(IN_NONBLOCK);
     if (gIno < 0) return "err inotify";
@@ -176,6 +204,7 @@ struct ErrInfo {
             if (code == XMLExcepts::Gen_CouldNotOpenDTD || code == XMLExcepts::Gen_CouldNotOpenExtEntity) first = "OpenFailed";
             else if (code >= XMLExcepts::NetAcc_InternalError && code <= XMLExcepts::NetAcc_ReadSocket) first = "Net";
             else if (code == XMLExcepts::URL_MalformedURL) first = "Malformed";
+            else if (code == XMLExcepts::Val_CantHaveIntSS) first = "CantHaveIntSS";
             else first = "Exc:" + std::to_string(code) + ":" + msg.substr(0, 40);
         }
         else first = "Other:" + std::to_string(code) + ":" + msg.substr(0, 40);
@@ -239,7 +268,9 @@ static std::string classifyExc(const std::string& msg) {
 }
 
 // parse <api> <scanner> <val> <doSchema> <loadSchema> <loadDTD> <disable> <stdUri> <limit|-> <resolver> <docsys> ...
-static std::string doParse(const std::vector<std::string>& a) {
+// uc: -1 = leave useCachedGrammarInParse alone, 0/1 = set it; prime: first parse the same document once on the same
+// parser with cacheGrammarFromParse + loadExternalDTD (not recorded), so that its DTD grammar is in the pool
+static std::string doParse(const std::vector<std::string>& a, int uc = -1, bool prime = false) {
     if (a.size() < 12) return "bad-request";
     const std::string &api = a[1], &scn = a[2], &val = a[3];
     bool doSchema = a[4] == "1", loadSchema = a[5] == "1", loadDTD = a[6] == "1", disable = a[7] == "1",
@@ -274,6 +305,15 @@ static std::string doParse(const std::vector<std::string>& a) {
             p.setErrorHandler(&dh);
             p.setContentHandler(&dh);
             p.setLexicalHandler(&dh);
+            if (prime) {
+                p.setFeature(XMLUni::fgXercesCacheGrammarFromParse, true);
+                p.setFeature(XMLUni::fgXercesLoadExternalDTD, true);
+                try { p.parse(docsys.c_str()); } catch (...) {}
+                p.setFeature(XMLUni::fgXercesCacheGrammarFromParse, false);
+                p.setFeature(XMLUni::fgXercesLoadExternalDTD, loadDTD);
+            }
+            if (uc >= 0) p.setFeature(XMLUni::fgXercesUseCachedGrammarInParse, uc == 1);
+            p.info = ErrInfo(); gTrace.clear(); drain(false);
             try { p.parse(docsys.c_str()); }
             catch (const SAXParseException& e) { exc = "SAXParse"; }
             info = p.info;
@@ -292,6 +332,15 @@ static std::string doParse(const std::vector<std::string>& a) {
             if (rmode) p.setXMLEntityResolver(&res);
             DefaultHandler dh;                 // swallows errors; installing it makes the parser the error reporter
             p.setErrorHandler(&dh);
+            if (prime) {
+                p.cacheGrammarFromParse(true);
+                p.setLoadExternalDTD(true);
+                try { p.parse(docsys.c_str()); } catch (...) {}
+                p.cacheGrammarFromParse(false);
+                p.setLoadExternalDTD(loadDTD);
+            }
+            if (uc >= 0) p.useCachedGrammarInParse(uc == 1);
+            p.info = ErrInfo(); gTrace.clear(); drain(false);
             try { p.parse(docsys.c_str()); }
             catch (const SAXParseException& e) { exc = "SAXParse"; }
             info = p.info;
@@ -384,13 +433,26 @@ static std::string doHist(const std::vector<std::string>& a) {
 
 int main() {
     XMLPlatformUtils::Initialize();
+    delete XMLPlatformUtils::fgNetAccessor;
+    XMLPlatformUtils::fgNetAccessor = new RecAccessor;       // Terminate() deletes it
     std::string line;
     while (std::getline(std::cin, line)) {
         std::vector<std::string> a = splitWs(line);
         std::string r = "bad-request";
         if (a.size() == 2 && a[0] == "root") r = setRoot(a[1]);
+        else if (a.size() == 3 && a[0] == "serve") {
+            auto it = gCanary.find(baseName(a[2]));
+            if (it == gCanary.end()) r = "err no-canary"; else { gServed[a[1]] = it->second; r = "ok"; }
+        }
+        else if (a.size() == 3 && a[0] == "switch") r = "ok";      // model-side switch, nothing to do here
         else if (!a.empty() && a[0] == "parse") r = doParse(a);
         else if (!a.empty() && a[0] == "hist") r = doHist(a);
+        else if (a.size() >= 14 && a[0] == "cparse") {
+            // cparse <the 10 settings of parse> <useCached 0|1> <primed 0|1> <docsys> <docterm> <fsterm>
+            std::vector<std::string> b(a.begin(), a.begin() + 11);
+            b.insert(b.end(), a.begin() + 13, a.end());
+            r = doParse(b, a[11] == "1" ? 1 : 0, a[12] == "1");
+        }
 #ifdef HAVE_C19_URI
         else if (a.size() == 4 && a[0] == "uri") r = c19_uri(a[1], a[2] == "-" ? "" : a[2], a[3] == "-" ? "" : a[3]);
 #endif
